@@ -317,7 +317,7 @@ func checkTokenBucket(c *Ctx, rule string) {
 					burstField = f2
 				}
 				// clamp written as tokens = math.Min(burst, tokens + …)
-				if call, ok := st.Val.(*ssa.Call); ok && calleeIs(call, "math", "", "Min") {
+				if call, ok := st.Val.(*ssa.Call); ok && (calleeIs(call, "math", "", "Min") || builtinCall(call, "min") != nil) {
 					for _, a := range call.Call.Args {
 						if _, f2, ok := fieldOfLoad(a); ok && f2 != tokensField {
 							burstField = f2
